@@ -45,7 +45,7 @@ type Options struct {
 	Callbacks   bool // use the custom Ranger / Renderer values (user callbacks that can fail)
 	MultiLine   bool // actions may contain newlines (whitespace inside an action is free)
 	TargetTry   bool // place exactly one instrumented try statement (C13); probes only inside its body
-	CatchForm   int  // 0: no catch, 1: catch without variable, 2: catch with variable
+	CatchForm   int  // 0: no catch, 1: catch without variable, 2: catch with variable, 3: with variable and a return statement in the catch body
 }
 
 // SwarmOptions draws a feature subset; index 0 of every choice is the simplest.
@@ -735,6 +735,11 @@ func TargetClose(form int) string {
 		return "{{catch}}[CATCH]<cc:{{.}}>{{end}}{{mark(9002)}}"
 	case 2:
 		return "{{catch e}}[CATCH]{{e.Error()}}<cc:{{.}}>{{end}}{{mark(9002)}}"
+	case 3:
+		// the catch body sets the template's return value (which, as documented, does not stop the
+		// rendering); the empty if statement behind the try statement drops that value again, so that
+		// enclosing and following range statements - which stop at a return value - run as in the twin
+		return "{{catch e}}[CATCH]{{e.Error()}}<cc:{{.}}>{{return \"rv\"}}{{end}}{{if true}}{{end}}{{mark(9002)}}"
 	}
 	return "{{end}}{{mark(9002)}}"
 }
